@@ -1165,6 +1165,9 @@ class Extractor:
         rep['sha256'] = hashlib.sha256(raw_body.encode()).hexdigest()
 
         inner = body[1:-1]
+        if blk.kind == 'region' and a.get('loopbody') == '1':
+            # the region is the body of a loop: 'continue' ends the iteration, 'break' is not expected
+            inner = 'do {' + inner + '} while (0);'
         if re.search(r'^[ \t]*#[ \t]*(if|ifdef|ifndef|elif|else|endif)\b', inner, flags=re.M):
             raise ExtractionError('%s: body contains a preprocessor conditional that could not be resolved' % a['cname'])
         if init_stmts:
